@@ -440,6 +440,15 @@ def run_scenario(spec):
                 except Exception as e:  # noqa
                     exc = e
                 written = buf.getvalue()[len(before):]
+                if exc is None:
+                    # the captured stream is a file (or a pipe) in UTF-8: text which cannot be encoded makes `print` raise there
+                    try:
+                        written.encode("utf-8")
+                    except UnicodeEncodeError as e:
+                        exc = e
+                        buf.seek(len(before))
+                        buf.truncate()
+                        written = ""
                 new_dumps = dumps_log[n_dumps:]
                 payload = new_dumps[0][1] if new_dumps and new_dumps[0][0] == "ok" else None
                 inp = {"op": "report", "kw": kw_wire, "now": frac_str(clock.now), "perf": frac_str(clock.perf),
@@ -471,7 +480,8 @@ def run_scenario(spec):
                 lines.append((inp, out))
                 calls.append({"kw": kw, "spec": op["kw"], "exc": exc, "status": status, "written": written,
                               "payload": payload, "now": clock.now, "perf": clock.perf,
-                              "size": None if payload is None else sys.getsizeof(payload)})
+                              # the size of a report is the size of its JSON text on the (ASCII) wire
+                              "size": None if payload is None else sys.getsizeof(json.dumps(json.loads(payload)))})
                 if exc is None:
                     chunk = ""
                 else:
